@@ -298,6 +298,95 @@ fn decimal_search(n: u64) {
     println!("{{\"found\": false, \"evaluations\": {}, \"searched\": \"write_frame(Integer(v)) for {} values (powers of ten and two with neighbours, extremes, xorshift pseudo-random) against an independent decimal conversion\"}}", total, total);
 }
 
+/// C06 end to end (bounded): the real Server over loopback TCP on the real Bitcask engine; pipelined SET/GET/DEL
+/// requests with binary values, delivered all at once, byte by byte and in chunks; the replies must be exactly the
+/// model's, one per request, in order, whatever the segmentation.
+fn server_search(seed: u64) {
+    use bitcask::storage::bitcask::{Config as SConf, SyncStrategy};
+    use std::collections::BTreeMap;
+    use tokio::io::{AsyncReadExt, AsyncWriteExt};
+    fn bulk(out: &mut Vec<u8>, b: &[u8]) { out.extend(format!("${}\r\n", b.len()).as_bytes()); out.extend(b); out.extend(b"\r\n"); }
+    fn req(parts: &[&[u8]]) -> Vec<u8> { let mut o = format!("*{}\r\n", parts.len()).into_bytes(); for p in parts { bulk(&mut o, p); } o }
+    let rt = tokio::runtime::Builder::new_multi_thread().worker_threads(2).enable_all().build().unwrap();
+    let mut x = seed.wrapping_mul(6364136223846793005).wrapping_add(1442695040888963407);
+    let mut next = move |n: u64| { x = x.wrapping_mul(6364136223846793005).wrapping_add(1442695040888963407); (x >> 33) % n };
+    let values: Vec<Vec<u8>> = vec![b"v".to_vec(), b"".to_vec(), b"\r\n".to_vec(), b"a\r\nb\0c".to_vec(), vec![0xff, 0xfe, 0x00], b"$5\r\nhello\r\n".to_vec(), vec![b'x'; 5000], b"+OK\r\n".to_vec(), b"-1".to_vec()];
+    let keys: Vec<&[u8]> = vec![b"k0", b"k1", b"k2", b"\xc3\xa9t\xc3\xa9"];
+    let mut total_reqs = 0usize;
+    for round in 0..6u64 {
+        let dir = tempfile::tempdir().unwrap();
+        let mut c = SConf::default();
+        c.path(dir.path()).concurrency(2).max_file_size(if round % 2 == 0 { 200 } else { 1 << 20 }).sync(SyncStrategy::None).merge_check_interval_ms(1_000_000_000).merge_check_jitter(0.0);
+        let kv = c.open().unwrap();
+        let handle = kv.get_handle();
+        let port = { let l = std::net::TcpListener::bind("127.0.0.1:0").unwrap(); l.local_addr().unwrap().port() };
+        let (stop_tx, stop_rx) = tokio::sync::oneshot::channel::<()>();
+        let mut nc = bitcask::net::Config::default();
+        nc.host = "127.0.0.1".parse().unwrap();
+        nc.port = port;
+        // requests and the model's replies
+        let mut model: BTreeMap<Vec<u8>, Vec<u8>> = BTreeMap::new();
+        let mut wire = Vec::new();
+        let mut want = Vec::new();
+        let mut hist = Vec::new();
+        let n = 20 + next(40);
+        for _ in 0..n {
+            let k = keys[next(keys.len() as u64) as usize];
+            match next(10) {
+                0..=3 => { let v = &values[next(values.len() as u64) as usize]; wire.extend(req(&[b"SET", k, v])); model.insert(k.to_vec(), v.clone()); want.extend(b"+OK\r\n"); hist.push(format!("SET {} <{} bytes>", String::from_utf8_lossy(k), v.len())); }
+                4..=6 => { wire.extend(req(&[b"GET", k])); match model.get(k) { Some(v) => bulk(&mut want, v), None => want.extend(b"$-1\r\n") } hist.push(format!("GET {}", String::from_utf8_lossy(k))); }
+                _ => { let m = 1 + next(3) as usize; let mut parts: Vec<&[u8]> = vec![b"DEL"]; let mut cnt = 0; let mut names = Vec::new();
+                    for _ in 0..m { let kk = keys[next(keys.len() as u64) as usize]; parts.push(kk); names.push(String::from_utf8_lossy(kk).to_string()); if model.remove(kk).is_some() { cnt += 1; } }
+                    wire.extend(req(&parts)); want.extend(format!(":{}\r\n", cnt).as_bytes()); hist.push(format!("DEL {}", names.join(" "))); }
+            }
+        }
+        total_reqs += n as usize;
+        let chunk = [usize::MAX, 1, 7, 3, 64, 1000][round as usize % 6];
+        let got: Result<Vec<u8>, String> = rt.block_on(async {
+            let server = nc.async_server(handle, async { let _ = stop_rx.await; }).await.map_err(|e| format!("server start: {}", e))?;
+            let srv = tokio::spawn(server.run());
+            let mut s = tokio::net::TcpStream::connect(("127.0.0.1", port)).await.map_err(|e| format!("connect: {}", e))?;
+            s.set_nodelay(true).ok();
+            let (mut rd, mut wr) = s.into_split();
+            let w2 = wire.clone();
+            let writer = tokio::spawn(async move {
+                if chunk == usize::MAX { wr.write_all(&w2).await.ok(); } else { for c in w2.chunks(chunk) { wr.write_all(c).await.ok(); wr.flush().await.ok(); if chunk < 8 { tokio::task::yield_now().await; } } }
+                wr
+            });
+            let mut got = Vec::new();
+            let mut buf = vec![0u8; 65536];
+            let deadline = tokio::time::Instant::now() + std::time::Duration::from_secs(20);
+            while got.len() < want.len() {
+                match tokio::time::timeout_at(deadline, rd.read(&mut buf)).await {
+                    Ok(Ok(0)) => break,
+                    Ok(Ok(k)) => got.extend(&buf[..k]),
+                    Ok(Err(e)) => return Err(format!("read: {}", e)),
+                    Err(_) => break,
+                }
+            }
+            // nothing more may follow: wait briefly for surplus bytes
+            if let Ok(Ok(k)) = tokio::time::timeout(std::time::Duration::from_millis(50), rd.read(&mut buf)).await { got.extend(&buf[..k]); }
+            let _wr = writer.await;
+            let _ = stop_tx.send(());
+            let _ = tokio::time::timeout(std::time::Duration::from_secs(5), srv).await;
+            Ok(got)
+        });
+        let show = |b: &[u8]| { let s = String::from_utf8_lossy(&b[..b.len().min(300)]).to_string(); s };
+        match got {
+            Err(e) => { println!("{{\"found\": false, \"error\": {:?}}}", e); return; }
+            Ok(g) if g != want => {
+                // first differing reply
+                let mut i = 0; while i < g.len() && i < want.len() && g[i] == want[i] { i += 1; }
+                println!("{{\"found\": true, \"kind\": \"server-replies\", \"props\": \"C06\", \"seed\": {}, \"round\": {}, \"chunk\": {}, \"history\": {:?}, \"observed\": {:?}, \"expected\": {:?}}}",
+                         seed, round, if chunk == usize::MAX { 0 } else { chunk }, hist.join("; "), format!("{} reply bytes; first difference at byte {}: ...{}", g.len(), i, show(&g[i.saturating_sub(20)..])), format!("{} reply bytes: ...{}", want.len(), show(&want[i.saturating_sub(20)..])));
+                std::process::exit(0);
+            }
+            Ok(_) => {}
+        }
+        drop(kv);
+    }
+    println!("{{\"found\": false, \"evaluations\": {}, \"searched\": \"{} pipelined SET/GET/DEL requests (binary values incl. CRLF, empty, 5000 bytes; 4 keys) against the real Server over loopback TCP on the real Bitcask engine, 6 connections with segmentations all-at-once/1/7/3/64/1000 bytes; replies compared byte for byte with a map model\"}}", total_reqs, total_reqs);
+}
 // ---------------------------------------------------------------------------------------------------
 // storage scenarios: every one runs the real store in a fresh temp dir and compares with a map model
 mod store {
@@ -475,6 +564,7 @@ fn main() {
             println!("{{\"found\": false}}");
         }
         Some("conn-search") => conn_search(),
+        Some("server-search") => server_search(a.get(2).map(|s| s.parse().unwrap()).unwrap_or(0)),
         Some("decimal-search") => decimal_search(a.get(2).map(|s| s.parse().unwrap()).unwrap_or(200000)),
         Some("frame-one") => frame_one(&a[2], a.get(3).map(|s| s.parse().unwrap()).unwrap_or(0)),
         Some("frame-deep") => {
